@@ -12,6 +12,7 @@ import (
 	"sort"
 	"strconv"
 	"strings"
+	"unicode/utf8"
 
 	"golang.org/x/tools/go/ssa"
 )
@@ -465,6 +466,10 @@ func r08_5(c *Ctx, r *Report) {
 
 func head(s string, n int) string {
 	if len(s) > n {
+		// not in the middle of a character
+		for n > 0 && !utf8.RuneStart(s[n]) {
+			n--
+		}
 		return s[:n]
 	}
 	return s
